@@ -116,15 +116,20 @@ func buildJagged[T any](c Case, w, h int, val func(code int) T, m *model[T], lim
 		}
 		L := v.Stride*v.Rows + v.Tail
 		var src arrays.Array2D[T]
-		if v.Via {
+		via := v.Via
+		if via {
 			L = v.Stride * v.Rows
 			src = arrays.New2D[T](v.Stride, v.Rows)
-			if L > 0 {
-				j.flat = src.Row(0)[:L:L] // plain Go: the first row's capacity reaches to the end of the store
-			} else {
+			switch {
+			case L == 0:
 				j.flat = []T{}
+			case cap(src.Row(0)) >= L: // as it is today: the first row's capacity reaches to the end of the store
+				j.flat = src.Row(0)[:L:L]
+			default: // nothing promises that capacity: without it the buffer is an ordinary slice
+				via = false
 			}
-		} else {
+		}
+		if !via {
 			j.flat = make([]T, L)
 		}
 		for i := range j.flat {
@@ -155,12 +160,14 @@ func buildJagged[T any](c Case, w, h int, val func(code int) T, m *model[T], lim
 			}
 			var row []T
 			switch {
-			case v.Via && v.Stride > 0 && off < L:
+			case via && v.Stride > 0 && off < L:
 				y, x0 := off/v.Stride, off%v.Stride
 				if n >= 1 && x0+n <= v.Stride && r%2 == 0 {
 					row = src.RowSpan(x0, x0+n-1, y)
+				} else if base := src.Row(y); x0+n <= cap(base) {
+					row = base[x0 : x0+n] // may reach past the row's length, inside its capacity
 				} else {
-					row = src.Row(y)[x0 : x0+n] // may reach past the row's length, inside its capacity
+					row = j.flat[off : off+n]
 				}
 			default:
 				row = j.flat[off : off+n]
@@ -173,7 +180,7 @@ func buildJagged[T any](c Case, w, h int, val func(code int) T, m *model[T], lim
 			enter(r)
 		}
 		what := fmt.Sprintf("views of one buffer of %d values", L)
-		if v.Via {
+		if via {
 			what = fmt.Sprintf("Row/RowSpan windows of another Array2D (%dx%d)", v.Stride, v.Rows)
 		}
 		if len(lens) <= 20 {
@@ -187,7 +194,7 @@ func buildJagged[T any](c Case, w, h int, val func(code int) T, m *model[T], lim
 		} else {
 			lab("jagview:capacity-reaches-to-the-end-of-the-buffer")
 		}
-		if v.Via {
+		if via {
 			lab("jagview:windows-of-another-Array2D")
 		} else {
 			lab("jagview:sub-slices-of-a-flat-buffer")
